@@ -12,4 +12,9 @@ CHECKS = {
   "note": "Trusted: Coq kernel + vm_compute; go/ast extractor; model of net/http.Redirect validated by correspondence; WHATWG rule encoded by hand. 2FA/OAuth handlers share the same filter+sink (checked syntactically), exercised through loginHandler and the function pair.",
   "technique": "Coq proof over all byte strings + differential correspondence + regenerated sink table",
  },
+ "C03": {
+  "text": "Theorems c03_ssh_bound / c03_x509_bound: for every requested duration (any integer ns or none), authentication instant and clock readings, whatever certGenHandler signs has a validity window that does not wrap the unsigned epoch arithmetic, does not start in the future and ends no later than now+requested, now+cap and authenticated+cap; non-positive and over-long requests are refused; Obl_C03 proves the statement with the literal 24 h / 45 d of the property against constants regenerated from the current tree. Correspondence: ~950 real requests (duration table x session ages x ssh/x509/kubernetes x cookie/client-cert; role and refresh endpoints with duration parameters) compared with the model inside Coq, plus the property inequality as a direct oracle.",
+  "note": "Trusted: Coq kernel + vm_compute; time.ParseDuration in front of the model; amd64 float->uint64 semantics for negative values; harness-compiled constants. Cloud-role (AWS) template lifetime is not yet exercised.",
+  "technique": "Coq proof over Z (lia) + regenerated constants + differential correspondence",
+ },
 }
